@@ -195,6 +195,8 @@ def _check_image(ctx, d, ds, fr, reqs, pending):
         atexit.register(lambda p=tmp_path: os.path.exists(p) and os.unlink(p))
     paths = {
         'memory': lambda: hd.Image.from_dataset(pydicom.dcmread(io.BytesIO(blob)), copy=False),
+        # the default of from_dataset: the image is a deep copy of the dataset it was given
+        'memory-copy': lambda: hd.Image.from_dataset(pydicom.dcmread(io.BytesIO(blob))),
         'eager': lambda: hd.imread(io.BytesIO(blob)),
         'lazy': lambda: hd.imread(io.BytesIO(blob), lazy_frame_retrieval=True),
     }
@@ -519,11 +521,21 @@ def _check_image(ctx, d, ds, fr, reqs, pending):
                          'cached-array batch accepted out-of-range number', site='get_stored_frames/cached')
         # ---- the pixel data are replaced on the object AFTER the whole array was decoded and cached (correcting a file in
         # memory): every access path must answer from the new data, as pydicom's own staleness check does
-        if native and d['bits'] >= 8 and n >= 2 and name in ('memory', 'eager', 'eager-path', 'eager-bytes') \
+        if d['bits'] >= 8 and n >= 2 and name in ('memory', 'memory-copy', 'eager', 'eager-path', 'eager-bytes') \
                 and not np.array_equal(ref[0], ref[n - 1]):
-            flen = d['rows'] * d['cols'] * d['samples'] * d['bits'] // 8
             pd = bytes(im.PixelData)
-            swapped = pd[(n - 1) * flen:n * flen] + pd[flen:(n - 1) * flen] + pd[:flen] + pd[n * flen:]
+            if native:
+                flen = d['rows'] * d['cols'] * d['samples'] * d['bits'] // 8
+                swapped = pd[(n - 1) * flen:n * flen] + pd[flen:(n - 1) * flen] + pd[:flen] + pd[n * flen:]
+            else:
+                # encapsulated: the same frames, first and last exchanged, encapsulated anew (with a Basic Offset Table)
+                from pydicom.encaps import encapsulate, generate_frames
+                efr = [bytes(f) for f in generate_frames(pd, number_of_frames=n)]
+                efr[0], efr[n - 1] = efr[n - 1], efr[0]
+                swapped = encapsulate(efr, has_bot=True)
+                for kw_ in ('ExtendedOffsetTable', 'ExtendedOffsetTableLengths'):     # they describe the element that is replaced
+                    if kw_ in im:
+                        del im[kw_]
             st, _ = _fetch(lambda: im['PixelData'].__setattr__('value', swapped))
             if st == 'ok':
                 ref2 = ref.copy()
